@@ -15,7 +15,7 @@ func init() {
 		Run:       runC16,
 		Technique: "exhaustive run-time enumeration of each fixed-width wire unit through the public API, both directions (value -> octets -> value, canonical octets -> value -> octets)",
 		Rule: "Header: all 2^32 raw words (thorough) / 2^26 stride sample + all P x count x PT with boundary lengths (quick), counts 32..255 rejected, inputs of 0..3 octets rejected; RunLengthChunk and StatusVectorChunk: all 2^15 words each and all field tuples; RecvDelta: all 2^8 + 2^16; " +
-			"24-bit cumulative lost via ReceptionReport: all 2^24; CCFB metric block via a 2-metric report: all 2^16 in each slot; XR Chunk accessors: all 2^16 vs RFC 3611 4.1.1-4.1.3; NACK pair and SLI word via single-entry packets: 2^22 sample (quick) / all 2^32 (thorough); FIR entry: stratified 2^24 (quick) / 2^30 (thorough) of 2^40; " +
+			"24-bit cumulative lost via ReceptionReport: all 2^24; CCFB metric block via a 2-metric report: all 2^16 in each slot; XR Chunk accessors: all 2^16 vs RFC 3611 4.1.1-4.1.3; NACK pair and SLI word via single-entry packets: 2^22 sample (quick) / all 2^32 (thorough); FIR entry: stratified 2^24 (quick) / 2^32 (thorough: every value of the top 24 SSRC bits x all 256 sequence numbers) of 2^40; " +
 			"non-trivial = every unit value; distinct by construction",
 		Assumptions: []string{
 			"canonical wire units: run-length chunk words have T=0; vector chunk words T=1; a not-received CCFB metric block is all zero; FIR entries have zero reserved octets; SLI/NACK words are all canonical",
@@ -471,12 +471,12 @@ func runC16(c *core.Ctx) {
 		cs.Eval(640)
 	})
 	// ---- FIR entry ----
-	firN := c.N(1<<8, 1<<14) // blocks of 2^16 entries
+	firN := c.N(1<<8, 1<<16) // blocks of 2^16 entries
 	c.Section("fir-entries", firN, func(cs *core.Case) {
 		p := &rtcp.FullIntraRequest{SenderSSRC: 1, MediaSSRC: 2, FIR: make([]rtcp.FIREntry, 1)}
 		for i := uint32(0); i < 1<<8; i++ {
 			// stratified SSRC: block index in the top bits, i in the middle, PRNG low bits, plus bit walks
-			ssrc := uint32(cs.Idx)<<18 | i<<10 | cs.R.U32()&0x3FF // distinct by construction
+			ssrc := uint32(cs.Idx)<<16 | i<<8 | cs.R.U32()&0xFF // thorough: 2^16 blocks x 2^8: every value of the top 24 bits; distinct by construction
 			if !cs.C.Thorough() {
 				ssrc = uint32(cs.Idx)<<24 | i<<16 | cs.R.U32()&0xFFFF
 			}
